@@ -214,9 +214,18 @@ def run(ctx):
                'components enter the predicate)', both, loc=loc(f2, cond), detail=t)
     # identities by construction
     guc = prog.func(CLS + '.get_uncommon_count')
-    rets = [n for n in ast.walk(guc.node) if isinstance(n, ast.Return)]
-    ok = len(rets) == 1 and txt(rets[0].value) == 'self.total - self.get_common_count()'
-    ctx.ob('T17', guc.fq, 'uncommon = total - common by construction', ok, loc=guc.loc)
+    wg, gpaths = paths_of(prog, guc, recv=ci)
+    rets = [p for p in gpaths if p.kind == 'return']
+    ok = bool(rets)
+    det = ''
+    for p in rets:
+        e = wg.expand(p.outcome[1]) if p.outcome[1] is not None else None
+        good = isinstance(e, ast.BinOp) and isinstance(e.op, ast.Sub) and txt(e.left) == 'self.total' and \
+            txt(e.right) == 'self.get_common_count()'
+        if not good:
+            ok = False
+            det = 'returns %s' % txt(e)
+    ctx.ob('T17', guc.fq, 'uncommon = total - common by construction (value returned on every path)', ok, loc=guc.loc, detail=det)
     for name in ('itervalues', 'iteritems', '__getitem__'):
         f = prog.func(CLS + '.' + name)
         subs = [txt(n) for n in ast.walk(f.node) if isinstance(n, ast.Subscript) and txt(n).endswith('[0]')]
